@@ -5,7 +5,7 @@ import skel
 
 THEOREMS = ["Vars.no_false_e482", "Vars.e482_justified", "Vars.step_inv", "Vars.goStmt_run", "Vars.block_scoped", "Vars.goStmt_stack", "Vars.use_undefined_iff", "Vars.use_skipped_iff",
             "Vars.use_ok_iff", "Vars.declare_clash_iff",
-            "Vars.accepted_runs_initialised", "Vars.sound", "Vars.lwf_list", "Vars.place_brOKL", "Vars.skip_to_label",
+            "Vars.accepted_runs_initialised", "Vars.Dyn.dyn_agrees_with_cf", "Vars.sound", "Vars.lwf_list", "Vars.place_brOKL", "Vars.skip_to_label",
             "Vars.skip_detected", "Vars.goStmt_pending", "Vars.goStmt_persist", "Vars.goStmt_fresh"]
 R = 0        # declared first in every body
 CONST = 5    # a module constant
